@@ -3,6 +3,7 @@ package main
 import (
 	"encoding/json"
 	"fmt"
+	"unicode/utf8"
 
 	"github.com/dcaiafa/lox/verif/internal/lexref"
 	"github.com/dcaiafa/lox/verif/internal/lx"
@@ -56,6 +57,7 @@ func c11One(ws *pipe.Workspace, fam string, idx int64, s *lexref.Spec, depth, L 
 		}
 	}
 	b.Install(px.NB)
+	acct := c11Accounting(b)
 	nbad := 0
 	check := func(in []byte) {
 		if nbad > 0 {
@@ -74,6 +76,10 @@ func c11One(ws *pipe.Workspace, fam string, idx int64, s *lexref.Spec, depth, L 
 		default:
 			if t := sr.Tiling(len(in)); t != "" {
 				problem, kind = "input not accounted for exactly once: "+t+fmt.Sprintf(" (items %v)", sr.Items), "driver-conservation"
+			} else if acct != nil {
+				if t := acct(in, sr); t != "" {
+					problem, kind = t+fmt.Sprintf(" (items %v)", sr.Items), "driver-wrong-account"
+				}
 			}
 		}
 		if problem != "" {
@@ -90,6 +96,64 @@ func c11One(ws *pipe.Workspace, fam string, idx int64, s *lexref.Spec, depth, L 
 	}
 	forByteStrings(c11Symbols, L, check)
 	return out
+}
+
+// c11Accounting returns, for single-mode specifications without mode actions,
+// a check that every stretch is accounted for by a rule that matches it: text
+// dropped as a discard is (accumulated matches)* followed by a match of a
+// @discard rule, the text of a token of type T is (accumulated matches)*
+// followed by a match of a rule that produces T. (Tiling alone would accept a
+// lexer that drops text no @discard rule matches.)
+func c11Accounting(b *lx.Built) func(in []byte, sr *lx.Stream) string {
+	s := b.C.Spec
+	if len(s.Modes) != 1 {
+		return nil
+	}
+	m := b.C.Modes[0]
+	var pre, disc []int
+	byTok := map[int][]int{}
+	for i, r := range m.Rules {
+		switch {
+		case r.K == lexref.RToken:
+			if len(r.Actions) > 0 {
+				return nil
+			}
+			byTok[b.C.TokIndex[r.Name]] = append(byTok[b.C.TokIndex[r.Name]], i)
+		case len(r.Actions) == 0:
+			pre = append(pre, i)
+		case len(r.Actions) == 1 && r.Actions[0].K == lexref.ADiscard:
+			disc = append(disc, i)
+		case len(r.Actions) == 1 && r.Actions[0].K == lexref.AEmit:
+			t := b.C.TokIndex[r.Actions[0].Arg]
+			byTok[t] = append(byTok[t], i)
+		default:
+			return nil
+		}
+	}
+	decode := func(bs []byte) []int {
+		var cps []int
+		for len(bs) > 0 {
+			r, w := utf8.DecodeRune(bs)
+			cps = append(cps, int(r))
+			bs = bs[w:]
+		}
+		return cps
+	}
+	return func(in []byte, sr *lx.Stream) string {
+		for _, it := range sr.Items {
+			switch it.Kind {
+			case "discard":
+				if !b.C.MatchSeq(m, pre, disc, decode(in[it.Start:it.End])) {
+					return fmt.Sprintf("the text %q was dropped, but no @discard rule matches it (after accumulated text or not): silently swallowed", in[it.Start:it.End])
+				}
+			case "tok":
+				if !b.C.MatchSeq(m, pre, byTok[it.Type], decode(in[it.Start:it.End])) {
+					return fmt.Sprintf("a token of type %d carries the text %q, which no rule producing that type matches", it.Type, in[it.Start:it.End])
+				}
+			}
+		}
+		return ""
+	}
 }
 
 func c11Worker(c *mc.Ctx) {
@@ -174,7 +238,7 @@ func init() {
 		Level: "model_checking",
 		Rule: "specifications: C02's rule sets WITHOUT the non-nullable precondition and with accumulating fragments as a third rule kind, C07's mode graphs, C08's non-greedy shapes; " +
 			"each: breadth-first search of every configuration (state, mode, mode stack <= D) of the real state machine reachable by any rune sequence, with an exact livelock search (repeated configuration, or stack pumping, on one pending rune) - all input lengths; " +
-			"then every byte string up to L symbols (incl. newline, multi-byte, invalid UTF-8) lexed to EOF by the real driver with a recorder around the real state machine: token, discard and error stretches must tile the input exactly once in order; non-trivial = spec with > 2 reachable configurations",
+			"then every byte string up to L symbols (incl. newline, multi-byte, invalid UTF-8) lexed to EOF by the real driver with a recorder around the real state machine: token, discard and error stretches must tile the input exactly once in order, and (single-mode specifications) every dropped stretch must be matched by a @discard rule and every token's text by a rule producing that token, after any accumulated matches; non-trivial = spec with > 2 reachable configurations",
 		Assume: []string{"error stretches are reconstructed from the reference driver's documented behaviour (skip to the character after the next newline)", "no reference semantics is needed: the oracles are termination and tiling"},
 		Worker: c11Worker,
 		Replay: c11Replay,
